@@ -1,4 +1,5 @@
 import RpmVerif.Props.C02
+import RpmVerif.Props.C03
 import RpmVerif.Props.Pipeline
 /-!
 # C02, bytes level — the "consequently" clause from the FILE of a library-signed package (AUDIT2 c1, c2)
@@ -16,6 +17,8 @@ import RpmVerif.Props.Pipeline
 * `signOp_libSigned`        `sign_with_timestamp` installs the `LibSigned` shape; `verify_of_signedSig`: what `verify_signature`
                             does on ANY package carrying such a signature header; `binds_of_scheme`: C10's scheme-level `Binds`
                             gives C02's log-level `Binds` for the verifier object of every key;
+* `verify_ok_digests_spec`  "every digest recorded in the package matches" in the words of C03's independent spec (`DigestSpec.Recorded`,
+                            `recompute`): `verify_ok_sound` composed with `C03.digests_iff` (AUDIT2 c3);
 * `tamper_rejected_build_sign`   all composed at `Pipeline.buildAndSign`: build and sign with key `k`, write, edit anything from
                             the first byte of the main header on so that the file still parses to something else — it verifies
                             with NO key of the scheme. Uses `C10.verifyWith_eq_verifySignatureS` (the two mirrors of
@@ -120,6 +123,15 @@ theorem tamper_rejected_bytes (v : Verifier) (p : Package) (bs' : Bytes) (p' : P
   exact tamper_rejected_value md5 sha1 sha256 b64 v p p' l a hlib wf.hdr (C16.parsed_wf hp).hdr h1 h2 hl ha hok hne hb hnc
 
 end general
+
+/-- **success ⇒ every digest the package records matches, in C03's terms**: each record of `DigestSpec.Recorded p` (MD5 / SHA1 /
+SHA256 of the signature header, the payload digest with its algorithm) is of a supported kind and equals the value
+recomputed from the package (AUDIT2 c3: `verify_ok_sound` concludes `verifyDigests = ok` of the model; this is that
+conclusion read through `C03.digests_iff`) -/
+theorem verify_ok_digests_spec (H : DigestSpec.Hashes) (b64 : Bytes → Option Bytes) (v : Verifier) (p : Package)
+    (h : (verifySignatureS H.md5 H.sha1 H.sha256 b64 v p).1 = .ok ()) :
+    ∀ r ∈ DigestSpec.Recorded p, DigestSpec.Supported r.which ∧ r.declared = some (DigestSpec.recompute H p r.which) :=
+  (C03.digests_iff H p).mp (verify_ok_sound H.md5 H.sha1 H.sha256 b64 v p h).2.2.2
 
 /-! ### "for a package built and signed by this library": `Sign.signOp` / `Pipeline.buildAndSign` -/
 section lib
@@ -255,6 +267,13 @@ example (k' : UInt8) : verifyWith C10.T C10.tMd5 C10.tSha1 C10.tSha256 k' sNoHea
 example : verifyWith C10.T C10.tMd5 C10.tSha1 C10.tSha256 (2 : UInt8) sSigned = .ok () :=
   (build_sign_verifies C10.tMd5 C10.tSha1 C10.tSha256 C06.sampleCfg sNow sArchive sPayload (legacyOk C10.ids) (correct C10.ids)
     (binds C10.ids) (b64 C10.ids) s_valid s_recs 1700000200 (2 : UInt8) (2 : UInt8)).mpr rfl
+
+/-- `verify_ok_digests_spec` at the signed sample: its hypothesis holds (key 2 verifies) -/
+example := verify_ok_digests_spec ⟨C10.tMd5, C10.tSha1, C10.tSha256⟩ C10.T.b64dec (verifierOf C10.T (2 : UInt8)) sSigned
+  (by
+    have h := (build_sign_verifies C10.tMd5 C10.tSha1 C10.tSha256 C06.sampleCfg sNow sArchive sPayload (legacyOk C10.ids)
+      (correct C10.ids) (binds C10.ids) (b64 C10.ids) s_valid s_recs 1700000200 (2 : UInt8) (2 : UInt8)).mpr rfl
+    exact (Sign.verifyWith_eq_verifySignatureS C10.T C10.tMd5 C10.tSha1 C10.tSha256 (2 : UInt8) sSigned).symm.trans h)
 
 /-- `parse_of_prefix`, `tamper_rejected_bytes` and `tamper_rejected_value` with a stateful verifier are instantiated inside
 `tamper_rejected_build_sign`; the general forms apply to C02's toy package as well -/
